@@ -109,3 +109,8 @@ package bn256
 //@   modifies *self
 //@ func (*gfP).Sqrt trusted
 //@   modifies *self
+
+// scalar multiplication of the generator: a point or an error (assumed; the algebra is not under contract)
+//@ func (*G1).ScalarBaseMult trusted
+//@   ensures err == nil ==> result0 != nil
+//@   modifies *e
